@@ -236,18 +236,24 @@ func (conn *Conn) send(call *Call) {
 		conn.pending[seq] = call
 	}
 	vhook("c.register", conn, call, seq, vupgrade(call.upgrade))
+	// Once the mutex is released the reader may complete the call (a response, or
+	// the sweep when the connection ends) and its caller may recycle it while this
+	// write is still under way: take what the write needs now.
+	flags := *call.upgrade
+	serviceMethod := call.ServiceMethod
+	args := call.Args
 	conn.mutex.Unlock()
 	vhook("c.send.gate", conn, call, seq, 0)
 	ctx := Context{}
 	ctx.Seq = seq
-	ctx.upgrade = call.upgrade
+	ctx.upgrade = &flags
 	var upgradeBuffer []byte
-	if !call.upgrade.IsZero() {
+	if !flags.IsZero() {
 		upgradeBuffer = getUpgradeBuffer()
-		ctx.Upgrade, _ = call.upgrade.Marshal(upgradeBuffer)
+		ctx.Upgrade, _ = flags.Marshal(upgradeBuffer)
 	}
-	ctx.ServiceMethod = call.ServiceMethod
-	err := conn.codec.WriteRequest(&ctx, call.Args)
+	ctx.ServiceMethod = serviceMethod
+	err := conn.codec.WriteRequest(&ctx, args)
 	if err != nil {
 		conn.mutex.Lock()
 		vhook("c.unregister", conn, call, seq, vbool(conn.pending[seq] == call))
